@@ -197,6 +197,8 @@ def run(tier):
                     violations.append(("noconflict:%s:%s" % (g.name, algo), "grammar %s under %s: expected a conflict report, got %s" % (g.name, algo, verdict), {"grammar": G.to_lalrpop(g), "verdicts": v}))
     # (b) + (c): differential of the constructions on the LR(1) corpus
     for g in base.base_grammars():
+        if getattr(g, "heavy", False):
+            continue
         v = verdicts(g)
         samples.append({"grammar": g.name, "corpus_class": "lr1_not_lalr" if g.not_lalr else "lalr", "generator": v})
         if v["lane"] != v["lr1"]:
